@@ -54,7 +54,9 @@ META.update({
             "text": "Exploration over generated state files and systematic damage (all prefixes, all single bit flips of small images, random bytes).", "note": PURE_NOTE},
 })
 
-NOT_APPLICABLE = [
-    {"property_id": p, "reason": "check not built yet in this session (planned in DESIGN.md section 4); not claimed until its monitor exists"}
-    for p in ["C19"]
-]
+META.update({
+    "C19": {"engine": "server", "technique": "runtime monitor: raw-socket HTTP client against the built binary's server vs an independent decoding of the ruler directory",
+            "text": "Exploration over ruler directories from random real-FS histories and over request classes including hostile request targets; the oracle is hashlib plus an independent bincode reader.", "note": "trusted base: Python hashlib, pytools/bincode_reader.py; loopback only"},
+})
+
+NOT_APPLICABLE = []
